@@ -73,6 +73,18 @@ pub fn guarded<T>(panics: &mut Vec<String>, what: &str, f: impl FnOnce() -> T) -
     }
 }
 
+/// Drop one handle. After a panic inside h2 its lock may be poisoned, and some destructors (`RecvStream::drop`) then
+/// panic even while unwinding, which aborts the process: from the first recorded panic on, handles are leaked instead.
+pub fn safe_drop<T>(panics: &mut Vec<String>, what: &str, x: T) {
+    if !panics.is_empty() {
+        std::mem::forget(x);
+        return;
+    }
+    if let Err(p) = catch_unwind(AssertUnwindSafe(move || drop(x))) {
+        panics.push(format!("drop({}): {}", what, crate::c11::panic_text(&p)));
+    }
+}
+
 impl T2 {
     /// Build the subject, run the handshake to completion (peer SETTINGS exchanged and acknowledged both ways).
     pub fn new(cfg: &T2Cfg, prefix: Vec<u32>) -> T2 {
@@ -331,23 +343,21 @@ impl T2 {
         self.subject_frames().iter().filter_map(|f| if let Ok(wf::Parsed::RstStream { sid: s, code }) = &f.parsed { if *s == sid { Some(*code) } else { None } } else { None }).collect()
     }
 
-    /// Tear everything down without letting destructor panics escape.
+    /// Tear everything down, one handle at a time, without letting destructor panics escape.
     pub fn finish(mut self) -> Vec<String> {
         let acc = std::mem::take(&mut self.accepted);
         let sr = self.send_request.take();
         let conn = std::mem::replace(&mut self.conn, Conn::Gone);
-        let r = catch_unwind(AssertUnwindSafe(move || {
-            drop(acc);
-            drop(sr);
-            drop(conn);
-        }));
-        if let Err(p) = r {
-            let t = crate::c11::panic_text(&p);
-            if !t.contains("self.slab.is_empty()") {
-                self.panics.push(format!("teardown: {}", t));
-            }
+        let mut panics = std::mem::take(&mut self.panics);
+        for a in acc {
+            safe_drop(&mut panics, "RecvStream", a.body);
+            safe_drop(&mut panics, "SendResponse", a.respond);
+            safe_drop(&mut panics, "SendStream", a.send);
         }
-        self.panics
+        safe_drop(&mut panics, "SendRequest", sr);
+        safe_drop(&mut panics, "Connection", conn);
+        panics.retain(|p| !p.contains("self.slab.is_empty()"));
+        panics
     }
 }
 
